@@ -96,6 +96,15 @@ CHECKS["C23"] = ("model_checking",
     "All interleavings of up to 3 (4 thorough) cancels over ids {op1, op2, unrelated} with start/poll/end of two operations (sampled in quick), plus directed bursts of 8-12 unrelated cancels before a matching one: a poll reports exactly when a cancel naming the operation arrived while it was in progress.",
     "Trusted: cancel arrivals placed at yield points by the handler thread; one emulated reactor iteration per operation.", "§6 C23", "cancel")
 
+CHECKS["C01"] = ("model_checking",
+    "TLA+ PduLayout spec (PS3.8 9.3 / PS3.7 Annex D layouts as byte-sequence constructors plus a structural reader) with the Gen_Pdu generator model-checked by TLC (layout lemmas on every generated value); every (value, Bytes(v)) pair TLC exports is run on the real encoder, decoder and primitive converters (S2C); observations and the produced bytes are judged / re-read by the Trace_Pdu spec (C2S)",
+    "Bounded value space of the seven PDUs: A-ASSOCIATE-RQ/AC with 1-3 contexts, 1-3 transfer syntaxes, ids 1/3/127/255, results 0-4, every user-information sub-item kind (max length incl. 0 and 2^31-1, version name, async ops, roles, SOP class extended, common extended with 0/2 related classes, user identity RQ types 1-5 with empty/short/300-byte fields, user identity AC with empty and non-empty response), all RJ result/source/reason and ABORT source/reason combinations, P-DATA with 1-3 PDVs of 0-40 bytes: byte equality, decode equality, re-encode, primitive round trip.",
+    "Trusted: transcription of the PS3.8/PS3.7 tables; leaf strings from the finite pool in PduLeaves.tla (leaf space sampled, structure exhaustive within the option sets).", "§6 C01", "pdu")
+CHECKS["C12"] = ("model_checking",
+    "TLA+ Gen_Config (requestor/acceptor configuration space) enumerated by TLC and PduLayout's WellFormedRQ/WellFormedAC predicates; every configuration is given to the real AE.associate against a real acceptor on loopback and the A-ASSOCIATE-RQ/AC bytes actually sent are captured (S2C); the Trace_Pdu spec reads the captured bytes with the structural reader and evaluates the predicates (C2S)",
+    "One-group-at-a-time variations around two base configurations: 7 AE-title shapes (1 char, 16 chars, padded, inner space, over 16 with padding, 17 chars, spaces only), 1/2/3/127/128/129 contexts in three shapes, maximum lengths 0/16382/2^32-1/1, all 32 subsets of extended-negotiation kinds, version name present/absent/16 chars, four acceptor support shapes (incl. role-based rejection): structure, counts, ids, UID/AE legality of every RQ and AC sent.",
+    "Trusted: EVT_DATA_SENT/RECV capture; configurations the API refuses are outside the quantifier; full product only sampled (thorough).", "§6 C12", "pdu")
+
 NOT_YET = {}
 
 
